@@ -22,12 +22,9 @@ chx_hash.install()          # builtin hash() without CrossHair's short-circuit f
 _SV = SidecarValidator(MINI)
 _SV0 = SidecarValidator(NOSCHEMA)
 
-_HARDWIRE_KNOWN = False     # while developing: exclusions active without known_findings.json
-
 
 def _active(fid):
-    if _HARDWIRE_KNOWN or fid in os.environ.get("VP_C08_ASSUME_KNOWN", "").split(","):
-        return True
+    """a finding's input class is excluded only while known_findings.json lists the id with status 'known'"""
     return R.known_active(fid)
 
 
@@ -244,13 +241,14 @@ def _early():
 
 def _excluded(doc):
     """`R.known(id, predicate(doc))` for each finding; predicates only evaluated while the id is listed"""
-    if _active("C08-toplevel-not-object") and _kf_toplevel(doc):
+    if _active("C08-toplevel-not-object") and R.known("C08-toplevel-not-object", _kf_toplevel(doc)):
         return True
-    if _active("C08-entry-not-object") and _kf_entry_not_object(doc):
+    if _active("C08-entry-not-object") and R.known("C08-entry-not-object", _kf_entry_not_object(doc)):
         return True
-    if _active("C08-unknown-ref-without-pound") and _kf_unknown_ref_no_pound(doc):
+    if _active("C08-unknown-ref-without-pound") and R.known("C08-unknown-ref-without-pound",
+                                                            _kf_unknown_ref_no_pound(doc)):
         return True
-    if _active("C08-ref-name-outside-pattern") and _kf_ref_not_a_name(doc):
+    if _active("C08-ref-name-outside-pattern") and R.known("C08-ref-name-outside-pattern", _kf_ref_not_a_name(doc)):
         return True
     return False
 
@@ -299,7 +297,10 @@ def total_doc(top: int, name_hed: bool, name: str, e: int, k1_hed: bool, v: int,
     pre: _admissible(top, name_hed, name, e, k1_hed, v, k2_na, w, key, s, i)
     post: _
     """
-    doc = _concrete(_doc(top, name_hed, name, e, k1_hed, v, k2_na, w, key, s, i)[0])
+    doc, ok = _doc(top, name_hed, name, e, k1_hed, v, k2_na, w, key, s, i)
+    if not ok:
+        return True                       # outside the bound/cell (only when called by hand without the cell's env)
+    doc = _concrete(doc)
     sc = sidecar_stub.load(doc)
     issues = sc.validate(MINI)
     if not isinstance(issues, list):
@@ -426,7 +427,7 @@ def _ref_pre(ka, s, pound, kb, r):
         if not (len(r) == 1 and R.over(r, "ab")):
             return False
     doc = _two(ka, s, pound, kb, r if (kb == 3 or kb == 5) else "a")
-    if _active("C08-ref-name-outside-pattern") and _kf_ref_not_a_name(doc):
+    if _active("C08-ref-name-outside-pattern") and R.known("C08-ref-name-outside-pattern", _kf_ref_not_a_name(doc)):
         return False
     return True
 
@@ -587,9 +588,9 @@ HARNESSES = [
                      bound="every one-column object to depth 3 (two-key objects below the entry level included), "
                            "strings: any Unicode text <= 3 chars, keys in {HED, n/a, '', a, z, q}, column name in "
                            "{HED, a}"),
-        thorough=R.tier(cells=_struct_cells(True), env={"VP_N": 5, "VP_M": 2, "VP_SALPHA": "any"}, timeout=1100,
+        thorough=R.tier(cells=_struct_cells(True), env={"VP_N": 5, "VP_M": 1, "VP_SALPHA": "any"}, timeout=1100,
                         bound="as quick plus two-key entries {k: V, 'z': V} and two-column objects {name: E, 'z': E}, "
-                              "strings <= 5 chars, keys and column names over 'ab' (names <= 2 chars)"),
+                              "strings <= 5 chars, keys and column names over 'ab'"),
         what="validate_structure never raises and reports: no structure code when every structure rule holds; "
              "the rule's code (error severity) when exactly one structure rule is broken",
         oracle="models/sidecar_ref.py structure_faults / CODES",
@@ -612,10 +613,10 @@ HARNESSES = [
                      bound="column a = value with text s+'#' / 1 category with text s (s <= 3 chars over '{}ab'), "
                            "column b in {absent, value 'a#', value '{r}#', category '{r}'} "
                            "with r in {a, b}"),
-        thorough=R.tier(cells=R.product_cells(R.int_cells("VP_KA", 0, 2), R.int_cells("VP_KB", 0, 5),
-                                              R.str_cells(4, split1_from=3, nclass=5)),
-                        env={"VP_N": 4, "VP_SALPHA": "{}ab#"}, timeout=1100,
-                        bound="as quick with s <= 4 chars over '{}ab#', '#' appended or not for every kind of column a, "
+        thorough=R.tier(cells=R.product_cells(R.int_cells("VP_KA", 0, 2),
+                                              R.str_cells(4, split1_from=2, split2_from=4, nclass=4)),
+                        env={"VP_N": 4}, timeout=1100,
+                        bound="as quick with s <= 4 chars, '#' appended or not for every kind of column a, "
                               "column a also with 2 categories, column b also {} (no HED) and category 'a'"),
         what="validate_structure + _validate_refs (validate()'s early-exit result) never raise; no "
              "SIDECAR_BRACES_INVALID when every reference rule holds; SIDECAR_BRACES_INVALID with error severity "
@@ -634,8 +635,8 @@ HARNESSES = [
         quick=R.tier(cells=R.str_cells(3, split1_from=3, nclass=5), env={"VP_N": 3}, timeout=170,
                      bound="every printable-ASCII string s with len(s) <= 3, column type in {value, categorical, "
                            "HED tags}"),
-        thorough=R.tier(cells=R.str_cells(5, split1_from=3, split2_from=4, nclass=5), env={"VP_N": 5},
-                        timeout=1100, bound="as quick with len(s) <= 5"),
+        thorough=R.tier(cells=R.str_cells(4, split1_from=3, split2_from=4, nclass=5), env={"VP_N": 4},
+                        timeout=1100, bound="as quick with len(s) <= 4"),
         what="PLACEHOLDER_INVALID (error) iff the number of '#' in the printed string differs from 1 (value) / 0 "
              "(categorical, HED tags); the caller's string is left unchanged",
         oracle="count of '#'", stubs=["NoSchema stub: tags are not looked up", "chx: ASCII-exact casefold model (pre: printable ASCII)"],
